@@ -264,8 +264,18 @@ func c07Body(r *Run) {
 
 	w.ps = gochannel.NewGoChannel(w.cfg, nil)
 	w.sub = w.ps
+	// with two decorators, half of the runs stack ONE decorator value twice (a decorator value is reusable: a router applies
+	// the one it was given to the subscriber of every handler)
+	var oneDec message.SubscriberDecorator
+	if w.nDec >= 2 && r.T.Chance(1, 2) {
+		oneDec = message.MessageTransformSubscriberDecorator(func(m *message.Message) { w.transformed++ })
+		r.Probe("one-decorator-value-applied-twice")
+	}
 	for i := 0; i < w.nDec; i++ {
-		dec := message.MessageTransformSubscriberDecorator(func(m *message.Message) { w.transformed++ })
+		dec := oneDec
+		if dec == nil {
+			dec = message.MessageTransformSubscriberDecorator(func(m *message.Message) { w.transformed++ })
+		}
 		d, err := dec(w.sub)
 		if err != nil {
 			r.HarnessErr = "decorator: " + err.Error()
